@@ -64,4 +64,11 @@ CHECKS = {
         "note": "Trusted: strace's view of successful opens under the scratch directory. Only successful compilations are judged.",
         "technique": "TLA+ spec (Includes) + TLC exhaustive small file systems + replay on a real directory tree with syscall observation + trace validation",
     },
+    "C11": {
+        "level": "model_checking",
+        "text": "EntryPoints.tla states the option derivation of the library entry point, the command-line tools and the debugger as one table and TLC checks the two required equalities for every dialect stepping; the three real entry points are called on every shipped and generated program under every sigil with include files found through the search path, their derived options and outputs are recorded and Trace_EntryPoints evaluates byte/text identity.",
+        "design_ref": "DESIGN.md section 4 C11",
+        "note": "Trusted: the classic assembler to read the command line's printed text of classic programs (C09). The debugger's compile step is observed through RunAndCompileInputData, the API cldb() itself calls.",
+        "technique": "TLA+ spec (EntryPoints) + TLC check of the decision table + trace validation of outputs of the three real entry points",
+    },
 }
